@@ -187,8 +187,10 @@ class Source:
             self.text = open(path, encoding='utf-8').read()
         except OSError as e:
             raise InfraError('cannot read %s: %s' % (path, e))
+        self.macro_expansions = []
         for mname in macros:
             self.text = expand_macro(self.text, mname, self.relpath)
+            self.macro_expansions.append((mname, MACRO_EXPANSIONS[-1][2]))
         try:
             self.toks, _ = lex(self.text)
             self.items = R.parse_items(self.toks, 0, len(self.toks))
@@ -1027,6 +1029,8 @@ def gen_mod(mod, sources):
     src = sources.setdefault(mod.file, None) or Source(mod.file)
     sources[mod.file] = src
     ex = Extracted()
+    for mname, tys in getattr(src, 'macro_expansions', []):
+        ex.dropped.append(('rewrite', 'macro_rules! %s in %s expanded mechanically: its body once per type (%s), `$t` substituted' % (mname, src.relpath, ' '.join(tys))))
     em = Emitter()
     em.raw('\npub mod %s {\nuse super::*;\n%s\n%s\n' % (mod.name, mod.uses, mod.text_before))
     n_item = 0
